@@ -290,11 +290,23 @@ func (e *Engine) TimeActions() []sched.Action {
 	if next < 0 {
 		return nil
 	}
+	// time alone has been passing for a long while (sixty advances in a row,
+	// at least fifteen query durations) and nothing came of it: whatever the
+	// pending query event is waiting for does not come with time - a last
+	// call refused by a stopped service, say. No more time is offered; what
+	// became of the event is for the oracles to judge.
+	if step := e.Sim.Step(); e.timeActs > 0 && step == e.lastTimeStep {
+		if e.timeActs >= 60 {
+			return nil
+		}
+	} else {
+		e.timeActs = 0
+	}
 	acts := []sched.Action{}
 	if next > time.Millisecond {
-		acts = append(acts, sched.Action{Label: "time+small", Do: func() { e.Sleep(next / 4) }})
+		acts = append(acts, sched.Action{Label: "time+small", Do: func() { e.timeActs++; e.lastTimeStep = e.Sim.Step(); e.Sleep(next / 4) }})
 	}
-	acts = append(acts, sched.Action{Label: "time+expire", Do: func() { e.Sleep(next) }})
+	acts = append(acts, sched.Action{Label: "time+expire", Do: func() { e.timeActs++; e.lastTimeStep = e.Sim.Step(); e.Sleep(next) }})
 	return acts
 }
 
@@ -328,12 +340,28 @@ func (e *Engine) HookObserver(point, arg string) {
 			break
 		}
 	}
+	if q == nil && subject != "" {
+		// a query event may expire before the call that started it has
+		// returned (its starter parked inside QueryEvent while a second
+		// passes): the harness has not read its subject from the announced
+		// event yet, so it is found by its resource
+		rname := strings.TrimSuffix(arg, " "+subject)
+		for _, c := range e.QEs {
+			if !c.Expired && c.Subject == "" && !c.SubFailed && c.RName == rname {
+				q = c
+				break
+			}
+		}
+	}
 	if q != nil {
 		q.Expired = true
 	}
 	e.H.mu.Unlock()
+	if subject != "" {
+		// (by the subject of the hook, whether or not the event was found)
+		e.Conn.Drain(subject)
+	}
 	if q != nil {
-		e.Conn.Drain(q.Subject)
 		e.H.Rec("qe.drain", q.Group, q.ID, "")
 	}
 }
